@@ -220,6 +220,16 @@ func neutralSites(repo string, mutants bool) {
 								}
 								emit("arg-swap", a.Pos(), b.End(), text(b)+string(src[off(a.End()):off(b.Pos())])+text(a))
 							}
+						case *ast.ReturnStmt:
+							// two adjacent results of one type exchanged
+							for i := 0; i+1 < len(x.Results); i++ {
+								a, b := x.Results[i], x.Results[i+1]
+								ta, tb := pkg.TypesInfo.TypeOf(a), pkg.TypesInfo.TypeOf(b)
+								if ta == nil || tb == nil || !types.Identical(types.Default(ta), types.Default(tb)) || text(a) == text(b) {
+									continue
+								}
+								emit("ret-swap", a.Pos(), b.End(), text(b)+string(src[off(a.End()):off(b.Pos())])+text(a))
+							}
 						case *ast.CompositeLit:
 							var kvs []*ast.KeyValueExpr
 							for _, e := range x.Elts {
